@@ -71,9 +71,16 @@ def parseInts (s : String) : Option (List Int) :=
 def parseCmd (w : List String) : Option Cmd :=
   match w with
   | ["IDENTIFY", bodyOk, fn, tlsv1, hbOff, cert] =>
-    match parseBool bodyOk, parseBool fn, parseBool tlsv1, parseBool hbOff, parseCert cert with
+    -- hbOff: 0 = absent, 1 = `heartbeat_interval: -1`, 2 = a permitted positive interval (audit B24)
+    match parseBool bodyOk, parseBool fn, parseBool tlsv1, parseBool (if hbOff = "2" then "0" else hbOff), parseCert cert with
     | some a, some b, some c, some d, some e =>
-      some (.identify { bodyOk := a, featureNegotiation := b, tlsv1 := c, hbOff := d, cert := e })
+      some (.identify { bodyOk := a, featureNegotiation := b, tlsv1 := c, hbOff := d, hbOn := hbOff = "2", cert := e })
+    | _, _, _, _, _ => none
+  | ["IDENTIFY", bodyOk, fn, tlsv1, hbOff, cert, _ob] =>
+    -- 7th token `ob=<n>`: an output_buffer_size (audit A2); no decision of the gate model reads it
+    match parseBool bodyOk, parseBool fn, parseBool tlsv1, parseBool (if hbOff = "2" then "0" else hbOff), parseCert cert with
+    | some a, some b, some c, some d, some e =>
+      some (.identify { bodyOk := a, featureNegotiation := b, tlsv1 := c, hbOff := d, hbOn := hbOff = "2", cert := e })
     | _, _, _, _, _ => none
   | ["AUTH", args, size, secret] =>
     match parseList args, size.toInt?, unhexS secret with
